@@ -288,13 +288,14 @@ Fixpoint newton_inv (fuel : nat) (a m x : Z) : Z :=
   | O => x
   | S n => newton_inv n a m ((x * (2 - a * x)) mod m)
   end.
-Definition nuft_q (k q : Z) : bool :=
-  let a := Thi q in
+Definition nuft_core (a k j x : Z) : bool :=
   let m := 2 ^ (64 + k) in
-  let j := val2 64 a in
-  let x := newton_inv 8 (a / 2 ^ j) m 1 in
   (0 <=? j) && (j <=? k) && (0 <=? x) && (x <? m) && ((a * x) mod m =? 2 ^ j) &&
   negb ((x mod 2 ^ j =? 0) && (2 ^ 63 <=? x / 2 ^ j) && (x / 2 ^ j <? 2 ^ 64)).
+Definition nuft_q (k q : Z) : bool :=
+  let a := Thi q in
+  let j := val2 64 a in
+  nuft_core a k j (newton_inv 8 (a / 2 ^ j) (2 ^ (64 + k)) 1).
 Definition nuft_ok (f : format) : bool :=
   forallb (nuft_q (61 - MANTISSA_SIZE f)) (zrange (-27) 27).
 
@@ -477,3 +478,21 @@ Proof.
   pose proof (pow2_pos (emax f) ltac:(lia)) as Pe.
   right; left. split; [nia|]. split; [nia|reflexivity].
 Qed.
+
+(** ** examples *)
+Example ex_power : power checked_build (-342) = Ok (-1074) /\ power release_build 308 = Ok 1086.
+Proof. split; vm_compute; reflexivity. Qed.
+Example ex_fullmul : full_multiplication (2 ^ 64 - 1) (2 ^ 64 - 1) = (1, 18446744073709551614).
+Proof. vm_compute. reflexivity. Qed.
+Example ex_cpa : compute_product_approx TABLES checked_build (-342) (2 ^ 64 - 1) 55
+  = Ok (1228264617323800998, 17218479456385750617).
+Proof. vm_compute. reflexivity. Qed.
+Example ex_cpa_hyps : -342 <= -342 <= 308 /\ 0 <= 2 ^ 64 - 1 < 2 ^ 64 /\ 0 < 55 < 64.
+Proof. rewrite p2_64. lia. Qed.
+Example ex_underflow_hyps : lfmt F64 /\ 0 < 18446744073709551615 < 2 ^ 64 /\ -343 < SMALLEST_POWER_OF_TEN F64.
+Proof. split; [exact (lfmt_ok_spec F64 lfmt_ok_F64)|]. rewrite p2_64. cbn. lia. Qed.
+
+Print Assumptions compute_product_approx_spec.
+Print Assumptions pw_flog5.
+Print Assumptions rne_underflow.
+Print Assumptions rne_overflow.
